@@ -912,6 +912,15 @@ class Evaluator:
                 raise TranslationError("ordering of %r and %r" % (a, b))
             f = {ast.Lt: z3.ULT, ast.LtE: z3.ULE, ast.Gt: z3.UGT, ast.GtE: z3.UGE}[type(op)]
             return f(a.term, b.term)
+        if isinstance(op, (ast.In, ast.NotIn)) and b.kind == "tuple":
+            # membership in a literal tuple: one equality per member
+            c = z3.BoolVal(False)
+            for item in b.items:
+                if a.kind == "const" and item.kind == "const":
+                    c = z3.Or(c, z3.BoolVal(a.term == item.term))
+                else:
+                    c = z3.Or(c, self.compare(ast.Eq(), a, item, ctx))
+            return z3.Not(c) if isinstance(op, ast.NotIn) else c
         if isinstance(op, (ast.In, ast.NotIn)):
             h = dom.methods.get((b.kind if b.kind != "obj" else b.cls, "__contains__"))
             if h is None:
